@@ -59,7 +59,9 @@ fn member_from<G: CurveTag>(fx: &Fixture<G>, m: &ProofMirror<G>, kind: String, s
 
 fn case<G: CurveTag>(bytes: &[u8], col: &mut Collector, max_members: usize) -> Result<(), Failure> {
     let mut ch = Choices::new(bytes);
-    let n_groups = ch.below(max_members + 1);
+    // a few percent of the batches are long (tens to hundreds of cheap members)
+    let long_batch = ch.chance(8);
+    let n_groups = if long_batch { 40 + ch.below(if max_members > 8 { 260 } else { 90 }) } else { ch.below(max_members + 1) };
     let mut members: Vec<Member<G>> = vec![];
     let mut has_cancel = false;
     // a quarter of the batches: valid members plus exactly one invalid one at a chosen position
@@ -96,9 +98,9 @@ fn case<G: CurveTag>(bytes: &[u8], col: &mut Collector, max_members: usize) -> R
         members.insert(pos, bad);
     }
     while !single_invalid && members.len() < n_groups {
-        let shape = SHAPES[ch.below(SHAPES.len())];
+        let shape = if long_batch { SHAPES[ch.below(3)] } else { SHAPES[ch.below(SHAPES.len())] };
         let fx = fixture::<G>(shape.0, shape.1);
-        match ch.weighted(&[45, 9, 9, 7, 18, 6, 6]) {
+        match ch.weighted(&if long_batch { [88u32, 2, 2, 1, 5, 1, 1] } else { [45, 9, 9, 7, 18, 6, 6] }) {
             0 => members.push(member_from(&fx, &fx.mirror, "valid".into(), shape).unwrap()),
             1 => {
                 let b = bad_witness::<G>(shape.0, shape.1);
@@ -215,6 +217,9 @@ fn case<G: CurveTag>(bytes: &[u8], col: &mut Collector, max_members: usize) -> R
     let n = members.len();
     let sizes: std::collections::BTreeSet<usize> = members.iter().map(|m| m.shape.0.next_power_of_two().max(1)).collect();
     col.class(&format!("members={}", n.min(9)));
+    if n >= 40 {
+        col.class("long-batch(>=40)");
+    }
     if n == 0 {
         col.class("empty-batch");
     }
@@ -274,7 +279,7 @@ pub fn run(tier: &str, seed: u64) -> i32 {
         rep.outcome.merge(replay_corpus("C07", &sub, &|b, col| dispatch(&sub, b, col)));
         rep.outcome.merge(search(&sub, seed, n, 200, &|b, col| dispatch(&sub, b, col)));
     }
-    for (c, f) in [("all-valid", 0.02), ("cancelling-set", 0.1), ("mixed-padded-sizes", 0.1), ("mixed-phases", 0.1), ("one-invalid-at-head", 0.02), ("one-invalid-at-tail", 0.02), ("one-invalid-in-middle", 0.008), ("one-invalid-alone", 0.005), ("empty-batch", 0.005), ("capacity-insufficient-for-a-member", 0.02), ("members=1", 0.02)] {
+    for (c, f) in [("all-valid", 0.02), ("cancelling-set", 0.1), ("mixed-padded-sizes", 0.1), ("mixed-phases", 0.1), ("one-invalid-at-head", 0.02), ("one-invalid-at-tail", 0.02), ("one-invalid-in-middle", 0.008), ("one-invalid-alone", 0.005), ("empty-batch", 0.005), ("capacity-insufficient-for-a-member", 0.02), ("members=1", 0.02), ("long-batch(>=40)", 0.01)] {
         rep.required_classes.push((c.to_string(), f));
     }
     rep.finish()
